@@ -155,6 +155,7 @@ def main(argv=None):
     ap.add_argument('--no-evidence', action='store_true')
     ap.add_argument('--keep', action='store_true')
     ap.add_argument('--start', type=int, default=0, help='first run index')
+    ap.add_argument('--digests-out', help='write {run index: step-log digest} as json (determinism self-test)')
     args = ap.parse_args(argv)
     check = args.check
     if check not in CHECKS:
@@ -309,6 +310,10 @@ def main(argv=None):
     samples.sort(key=lambda s: s['run_index'])
     samples = samples[:3]
 
+    if args.digests_out:
+        with open(args.digests_out, 'w') as f:
+            json.dump(digests, f)
+
     # a worker that died or hung: re-run the run it was on, alone, to classify
     exit_code = 0
     out_lines = []
@@ -443,7 +448,13 @@ def main(argv=None):
                 ('seen %d times this run' % ks['count']) if ks else 'not reached this run'))
     rep_dir = os.path.join(os.environ.get('VERIF_REPLAY_DIR') or os.path.join(VERIF, 'replays'), check)
     n_reported = 0
-    for sig in new_viol:
+    max_report = int(os.environ.get('VERIF_MAX_REPORT', '8'))
+    # prefer minimised examples, then small histories
+    new_viol.sort(key=lambda sg: (viol[sg].get('minimiser_executions', 0) == 0, viol[sg].get('minimised_ops', 0), sg))
+    not_reported = max(0, len(new_viol) - max_report)
+    for sig in new_viol[:max_report + 4]:
+        if n_reported >= max_report:
+            break
         v = viol[sig]
         os.makedirs(rep_dir, exist_ok=True)
         path = os.path.join(rep_dir, '%s-%d.json' % (slug(sig), v['run_seed']))
@@ -544,6 +555,9 @@ def main(argv=None):
         with open(os.path.join(VERIF, 'evidence', check + '.json'), 'w') as f:
             json.dump(evidence, f, indent=1, sort_keys=False)
 
+    if not_reported > 0 and n_reported:
+        out_lines.append('(%d further violation signatures were seen this run and are listed in the evidence file; the first %d are reported with confirmed replay files)'
+                         % (len(new_viol) - n_reported, n_reported))
     for l in out_lines:
         print(l)
     print('%s: %d runs, %d steps, %d distinct abstract traces, %d transitions, %.0f runs/h; determinism re-checks %d (mismatches %d); wall %.1fs'
